@@ -418,3 +418,112 @@ Proof.
   destruct (first_reject V (vs_rej sh) c) eqn:E; [reflexivity|].
   apply first_reject_none in E. congruence.
 Qed.
+
+(* ---------- the monitor holds on every outcome of the model ---------- *)
+Lemma flat_map_nil {A B} (f : A -> list B) l : (forall x, In x l -> f x = []) -> flat_map f l = [].
+Proof.
+  induction l as [|a l IH]; simpl; intros H; [reflexivity|].
+  rewrite (H a) by auto. simpl. apply IH. intros; apply H; auto.
+Qed.
+
+Lemma check_true b l : b = true -> check b l = [].
+Proof. intros ->. reflexivity. Qed.
+
+Lemma spec_value_with_ext d1 d2 D os seen cl f :
+  d1 f = d2 f -> spec_value_with d1 D os seen cl f = spec_value_with d2 D os seen cl f.
+Proof. intros H. unfold spec_value_with. rewrite H. reflexivity. Qed.
+
+Lemma mon_precedence_holds D Dc :
+  conforms D (dc_one_shot Dc) = true -> defaults_documented D Dc = true ->
+  forall file cl, mon_precedence D Dc file cl (patch D cl (load D file)) = [].
+Proof.
+  intros Hc Hd file cl. unfold mon_precedence. cbv zeta. apply flat_map_nil. intros f Hin. apply check_true.
+  rewrite (precedence_sound D _ Hc f file cl Hin). unfold spec_value.
+  unfold defaults_documented in Hd. rewrite forallb_forall in Hd. specialize (Hd f Hin). apply cval_eqb_eq in Hd.
+  rewrite (spec_value_with_ext (doc_default Dc) f_default) by exact Hd. apply cval_eqb_refl.
+Qed.
+
+Lemma doc_row_In rows net ch p : doc_row rows net = Some (ch, p) ->
+  exists n, In (n, (ch, p)) rows /\ (net = n \/ net = ch).
+Proof.
+  induction rows as [|[n [c q]] r IH]; simpl; [discriminate|].
+  destruct (text_eqb net n || text_eqb net c) eqn:E.
+  - intros H; inversion H; subst. exists n. split; auto.
+    apply orb_true_iff in E as [E|E]; apply text_eqb_eq in E; auto.
+  - intros H. destruct (IH H) as [n' [Hin Ho]]. exists n'. auto.
+Qed.
+
+Lemma networks_doc_facts sh Dc : networks_documented sh Dc = true ->
+  vs_unset sh = 0 /\ vs_netf sh = dc_network Dc /\ vs_portf sh = dc_port Dc /\
+  (forall net, In net (accepted_networks sh) -> exists cp, doc_row (dc_networks Dc) net = Some cp) /\
+  (forall n ch p net, In (n, (ch, p)) (dc_networks Dc) -> net = n \/ net = ch ->
+     exists q, doc_row (dc_networks Dc) net = Some (norm_net sh net, q) /\ port_of sh net = Some q).
+Proof.
+  unfold networks_documented. intros H.
+  apply andb_true_iff in H as [H H5]. apply andb_true_iff in H as [H H4].
+  apply andb_true_iff in H as [H H3]. apply andb_true_iff in H as [H1 H2].
+  apply N.eqb_eq in H1. apply text_eqb_eq in H2, H3.
+  rewrite forallb_forall in H4, H5.
+  repeat split; auto.
+  - intros net Hin. specialize (H4 net Hin). destruct (doc_row (dc_networks Dc) net); [eauto|discriminate].
+  - intros n ch p net Hin Hor. specialize (H5 _ Hin). simpl in H5.
+    apply andb_true_iff in H5 as [Ha Hb]. apply andb_true_iff in Hb as [Hb _].
+    assert (Hx : match doc_row (dc_networks Dc) net, port_of sh net with
+                 | Some (chain', p'), Some q => text_eqb (norm_net sh net) chain' && N.eqb q p'
+                 | _, _ => false end = true) by (destruct Hor; subst; assumption).
+    destruct (doc_row (dc_networks Dc) net) as [[ch' p']|]; [|discriminate].
+    destruct (port_of sh net) as [q|]; [|discriminate].
+    apply andb_true_iff in Hx as [Hx1 Hx2]. apply text_eqb_eq in Hx1. apply N.eqb_eq in Hx2. subst.
+    exists p'. split; reflexivity.
+Qed.
+
+Theorem monitor_holds D V Dc sh :
+  conforms D (dc_one_shot Dc) = true -> defaults_documented D Dc = true ->
+  verify_shape (v_stmts V) = Some sh -> scrutinee_documented V Dc = true -> auth_table_ok V sh = true ->
+  networks_documented sh Dc = true ->
+  forall file cl, mon_fails D Dc file cl (run_daemon D V file cl) = [].
+Proof.
+  intros Hc Hd Hs Hsc Ht Hn file cl. unfold mon_fails, run_daemon. simpl.
+  rewrite (mon_precedence_holds D Dc Hc Hd). simpl.
+  set (p := patch D cl (load D file)).
+  destruct (networks_doc_facts sh Dc Hn) as [Hu [Hnf [Hpf [Hacc Hrows]]]].
+  unfold mon_verify. simpl.
+  destruct (snd (verify V p)) eqn:Er.
+  - pose proof (proj1 (verify_ok_iff V sh Hs p) Er) as [Ha Hna].
+    rewrite (auth_decision V Dc sh p Hsc Ht) in Ha. apply negb_false_iff in Ha.
+    rewrite (clean_exactly_one _ _ _ Ha). simpl.
+    rewrite Hnf in Hna.
+    pose proof (proj1 (accepted_networks_spec sh _) Hna) as Hin.
+    destruct (Hacc _ Hin) as [[ch dp] Hrow]. rewrite Hrow.
+    destruct (doc_row_In _ _ _ _ Hrow) as [n [Hinr Hor]].
+    destruct (Hrows n ch dp _ Hinr Hor) as [q [H1 H2]].
+    rewrite Hrow in H1. inversion H1; subst ch dp. clear H1.
+    destruct (verify_port V sh Hs p Er) as [q' [Hq Hport]].
+    rewrite Hnf in Hq. rewrite H2 in Hq. inversion Hq; subst q'. clear Hq.
+    rewrite Hpf, Hu in Hport. rewrite Hport.
+    pose proof (verify_network V sh Hs p Er) as Hnet. rewrite Hnf in Hnet. rewrite Hnet.
+    rewrite text_eqb_refl. simpl.
+    assert (Hpc : N.eqb (num_of (if N.eqb (num_of (cget p (dc_port Dc))) 0 then VNum q else cget p (dc_port Dc)))
+                        (if N.eqb (num_of (cget p (dc_port Dc))) 0 then q else num_of (cget p (dc_port Dc))) = true).
+    { destruct (N.eqb (num_of (cget p (dc_port Dc))) 0); simpl; apply N.eqb_refl. }
+    rewrite Hpc. simpl.
+    apply flat_map_nil. intros fd Hfd.
+    destruct (text_eqb (f_name fd) (dc_network Dc) || text_eqb (f_name fd) (dc_port Dc)) eqn:E; [reflexivity|].
+    apply orb_false_iff in E as [E1 E2]. apply text_eqb_neq in E1, E2.
+    apply check_true. rewrite (verify_preserves V sh Hs p (f_name fd)) by congruence. apply cval_eqb_refl.
+  - apply check_true.
+    destruct (clean_auth _ _ _) eqn:Ec; simpl; [|reflexivity].
+    destruct (doc_documented Dc (str_of (cget p (dc_network Dc)))) eqn:Edoc; [|reflexivity].
+    exfalso. assert (Hok : snd (verify V p) = VOk).
+    { apply (verify_ok_iff V sh Hs p). split.
+      - rewrite (auth_decision V Dc sh p Hsc Ht), Ec. reflexivity.
+      - unfold doc_documented in Edoc. apply mem_str_In in Edoc. apply in_map_iff in Edoc as [[n [ch dp]] [En Hinr]].
+        simpl in En. destruct (Hrows n ch dp (str_of (cget p (dc_network Dc))) Hinr (or_introl (eq_sym En))) as [q [_ H2]].
+        unfold network_accepted. rewrite Hnf, H2. reflexivity. }
+    congruence.
+Qed.
+
+Theorem monitor_cli_holds D Dc :
+  conforms D (dc_one_shot Dc) = true -> defaults_documented D Dc = true ->
+  forall file cl, mon_fails_cli D Dc file cl (run_cli D file cl) = [].
+Proof. intros Hc Hd file cl. apply (mon_precedence_holds D Dc Hc Hd). Qed.
